@@ -27,6 +27,23 @@ pub fn programs() -> Vec<Vec<Sym>> {
 pub fn run() -> i32 {
     let mut fails = 0;
     let mut n = 0;
+    // 0. end markers with non-minimal length codes: liblzma accepts them (the reserved distance ends the stream)
+    for prog in programs() {
+        for l in [2u32, 3, 9, 10, 18, 100, 273] {
+            let mut p = prog.clone();
+            p.push(Sym::EL(l));
+            let e = enc::encode(3, 0, 2, u64::MAX, &p);
+            let file = enc::lzma_file(3, 0, 2, 1 << 16, None, &e.payload);
+            n += 1;
+            match liblzma(&file) {
+                Ok(o) if o == e.expect => {}
+                other => {
+                    eprintln!("bind: liblzma disagrees on an end marker with match length {}: {:?}", l, other.map(|o| o.len()));
+                    fails += 1;
+                }
+            }
+        }
+    }
     // 1. reference encoder -> liblzma and reference decoder
     for prog in programs() {
         for (lc, lp, pb) in [(3, 0, 2), (0, 0, 0), (4, 0, 4), (0, 4, 0), (1, 3, 4), (2, 2, 1)] {
